@@ -6,7 +6,7 @@ class Script(Scenario):
     """A scenario with a deterministic, hand-written script (no random choices)."""
 
     def __init__(self, name, **profile):
-        prof = dict(hostile_content=False, decoys=False, sessions=3, files=1, ckpt_on_pending=False, human_ckpt_rate=0.0)
+        prof = dict(hostile_content=False, decoys=False, sessions=3, files=1, human_ckpt_rate=0.0)
         prof.update(profile)
         super().__init__("W" + name, 0, 0, prof)
 
